@@ -325,6 +325,7 @@ class Lowerer:
     def funcdef(self, n, name, is_method=False):
         args = []
         defaults = []
+        prologue = []
         vararg = None
         if is_method:
             args.append(ast.arg(arg='self'))
@@ -338,17 +339,23 @@ class Lowerer:
                 defaults.append(self.expr(p['right']))
             elif p['type'] == 'RestElement':
                 vararg = self.pos(ast.arg(arg=p['argument']['name']), p)
-            else:
+            elif p['type'] in ('ArrayPattern', 'ObjectPattern'):
                 # destructuring parameter: bind to a synthetic name and destructure in the prologue
+                synth = '__param{}'.format(len(args))
+                args.append(self.pos(ast.arg(arg=synth), p))
+                if defaults:
+                    defaults.append(self.name('undefined'))
+                prologue.append(self.fix(ast.Assign(targets=[self.target(p)], value=self.name(synth)), p))
+            else:
                 raise JSParseError('unsupported parameter pattern {}'.format(p['type']))
         a = ast.arguments(posonlyargs=[], args=args, vararg=vararg, kwonlyargs=[], kw_defaults=[], kwarg=None, defaults=defaults)
         if n['body']['type'] == 'BlockStatement':
-            body = self.block(n['body']['body'])
+            body = prologue + self.block(n['body']['body'])
         else:
             self.pending.append([])
             v = self.expr(n['body'])
             hoisted = self.pending.pop()
-            body = hoisted + [self.fix(ast.Return(value=v), n['body'])]
+            body = prologue + hoisted + [self.fix(ast.Return(value=v), n['body'])]
         f = self.fix(ast.FunctionDef(name=name, args=a, body=self.nonempty(body, n), decorator_list=[], returns=None, type_comment=None, type_params=[]), n)
         f.is_async = bool(n.get('async'))
         return f
